@@ -10,7 +10,7 @@ BUILTINS = {"len", "max", "min", "abs", "int", "float", "bool", "list", "tuple",
             "enumerate", "any", "all", "hash", "id", "set", "isinstance", "tqdm", "sum", "zip", "str", "super",
             "dict", "print", "object"}
 
-SPEC_BUILTINS = {"seq_is", "stim_name", "stim_targets", "stim_args", "stim_rargs", "dict_get", "dict_has", "same_seq", "set_same", "implies", "iff", "forall", "exists", "forall_int", "exists_int", "old", "typeis", "fresh",
+SPEC_BUILTINS = {"exp", "seq_is", "stim_name", "stim_targets", "stim_args", "stim_rargs", "dict_get", "dict_has", "same_seq", "set_same", "implies", "iff", "forall", "exists", "forall_int", "exists_int", "old", "typeis", "fresh",
                  "is_none", "ite", "subseq", "seq_concat", "seq_unit", "seq_empty", "same_class", "born_before_entry",
                  "let"}
 
@@ -452,8 +452,16 @@ class ExecExpr(ExecBase):
         if self.is_dict(container):
             yield st, self.dict_has(st, container, x)
             return
-        if isinstance(container, VDict) and not container.items:
-            yield st, z3.BoolVal(False)
+        if isinstance(container, VDict):
+            acc = []
+            s = st
+            for k, _ in container.items:
+                outs = list(self.eq_values(s, k, x))
+                if len(outs) != 1:
+                    raise EngineError("dict-literal membership with forking equality")
+                s, e = outs[0]
+                acc.append(e)
+            yield s, (z3.Or(acc) if acc else z3.BoolVal(False))
             return
         raise EngineError(f"membership in {container}")
 
@@ -539,7 +547,19 @@ class ExecExpr(ExecBase):
             for k, v in base.items:
                 if isinstance(k, V) and isinstance(idx, V) and k.t.eq(idx.t):
                     return v
-            raise EngineError("dict literal lookup with non-syntactic key")
+            # symbolic key: an if-then-else chain over the literal keys (KeyError if none matches)
+            acc, conds = None, []
+            for k, v in reversed(base.items):
+                outs = list(self.eq_values(st, k, idx))
+                if len(outs) != 1 or not isinstance(v, V):
+                    raise EngineError("dict literal lookup: unsupported key / value")
+                _, e = outs[0]
+                conds.append(e)
+                acc = v if acc is None else V(v.kind, z3.If(e, v.t, acc.t), v.cls)
+            self.oblige("safe", st, z3.Or(conds) if conds else z3.BoolVal(False), "dictionary key present (KeyError)", name=self.next_call_id("key"))
+            if acc is None:
+                raise EngineError("lookup in an empty dict literal")
+            return acc
         if self.is_dict(base):
             self.oblige("safe", st, self.dict_has(st, base, idx), "dictionary key present (KeyError)", name=self.next_call_id("key"))
             return self.dict_index(st, base, idx)
